@@ -25,10 +25,11 @@ Inductive cstmt (S R : Type) : Type :=
 | CRangeN (txt : string) (over : S -> pr (list N)) (bnd : S -> Z -> N -> S) (body : list (cstmt S R))
 | CRangeZ (txt : string) (over : S -> pr (list Z)) (bnd : S -> Z -> Z -> S) (body : list (cstmt S R))
 | CBreak
+| CContinue
 | CReturn (txt : string) (r : S -> R)
 | CPanic (txt : string) (w : N).
 Arguments CSet {S R}. Arguments CEff {S R}. Arguments CIf {S R}. Arguments CLoop {S R}.
-Arguments CFor {S R}. Arguments CRangeN {S R}. Arguments CRangeZ {S R}. Arguments CBreak {S R}.
+Arguments CFor {S R}. Arguments CRangeN {S R}. Arguments CRangeZ {S R}. Arguments CBreak {S R}. Arguments CContinue {S R}.
 Arguments CReturn {S R}. Arguments CPanic {S R}.
 
 Inductive sstmt : Type :=
@@ -37,7 +38,7 @@ Inductive sstmt : Type :=
 | SLoop (body : list sstmt)
 | SFor (txt : string) (body : list sstmt)
 | SRange (txt : string) (body : list sstmt)
-| SBreak | SReturn (txt : string) | SPanic (txt : string).
+| SBreak | SContinue | SReturn (txt : string) | SPanic (txt : string).
 
 Fixpoint shape {S R} (s : cstmt S R) : sstmt :=
   match s with
@@ -49,6 +50,7 @@ Fixpoint shape {S R} (s : cstmt S R) : sstmt :=
   | CRangeN t _ _ b => SRange t (map shape b)
   | CRangeZ t _ _ b => SRange t (map shape b)
   | CBreak => SBreak
+  | CContinue => SContinue
   | CReturn t _ => SReturn t
   | CPanic t _ => SPanic t
   end.
@@ -60,29 +62,31 @@ Section Exec.
   Variable crash : N -> R.
   Variable nofuel : R.
 
-  Fixpoint exec (fuel : nat) (l : list (cstmt S R)) (σ : S) (k brk : S -> R) {struct fuel} : R :=
+  Fixpoint exec (fuel : nat) (l : list (cstmt S R)) (σ : S) (k brk cnt : S -> R) {struct fuel} : R :=
     match fuel with
     | O => nofuel
     | Datatypes.S f =>
-        (fix go (l : list (cstmt S R)) (σ : S) (k brk : S -> R) {struct l} : R :=
+        (fix go (l : list (cstmt S R)) (σ : S) (k brk cnt : S -> R) {struct l} : R :=
            match l with
            | [] => k σ
            | s :: rest =>
-               let next := fun σ' => go rest σ' k brk in
+               let next := fun σ' => go rest σ' k brk cnt in
                match s with
                | CSet _ fn => match fn σ with POk σ' => next σ' | PPanic w => crash w end
                | CEff _ fn => fn σ next
                | CIf _ c th el =>
                    match c σ with
-                   | POk true => exec f (th ++ rest) σ k brk
-                   | POk false => exec f (el ++ rest) σ k brk
+                   | POk true => exec f (th ++ rest) σ k brk cnt
+                   | POk false => exec f (el ++ rest) σ k brk cnt
                    | PPanic w => crash w
                    end
-               | CLoop body => exec f (body ++ [CLoop body]) σ (fun σ' => nofuel) next
+               | CLoop body =>
+                   exec f (body ++ [CLoop body]) σ next next (fun σ' => exec f [CLoop body] σ' next next next)
                | CFor t ini cond post body =>
                    let σ0 := ini σ in
                    if cond σ0
-                   then exec f (body ++ [CFor t post cond post body]) σ0 (fun σ' => nofuel) next
+                   then exec f (body ++ [CFor t post cond post body]) σ0 next next
+                             (fun σ' => exec f [CFor t post cond post body] σ' next next next)
                    else next σ0
                | CRangeN _ over bnd body =>
                    match over σ with
@@ -91,7 +95,8 @@ Section Exec.
                        (fix it (xs : list N) (i : Z) (σ : S) {struct xs} : R :=
                           match xs with
                           | [] => next σ
-                          | x :: t => exec f body (bnd σ i x) (fun σ' => it t (i + 1)%Z σ') next
+                          | x :: t => let again := fun σ' => it t (i + 1)%Z σ' in
+                                      exec f body (bnd σ i x) again next again
                           end) xs 0%Z σ
                    end
                | CRangeZ _ over bnd body =>
@@ -101,14 +106,16 @@ Section Exec.
                        (fix it (xs : list Z) (i : Z) (σ : S) {struct xs} : R :=
                           match xs with
                           | [] => next σ
-                          | x :: t => exec f body (bnd σ i x) (fun σ' => it t (i + 1)%Z σ') next
+                          | x :: t => let again := fun σ' => it t (i + 1)%Z σ' in
+                                      exec f body (bnd σ i x) again next again
                           end) xs 0%Z σ
                    end
                | CBreak => brk σ
+               | CContinue => cnt σ
                | CReturn _ r => r σ
                | CPanic _ w => crash w
                end
-           end) l σ k brk
+           end) l σ k brk cnt
     end.
 End Exec.
 
@@ -130,6 +137,10 @@ Definition set_esc σ x := mkcst (c_cmd σ) (c_left σ) (c_value σ) (c_args σ)
 Definition set_sb σ x := mkcst (c_cmd σ) (c_left σ) (c_value σ) (c_args σ) (c_node σ) (c_next σ) (c_err σ) (c_i σ) (c_v σ) (c_esc σ) x (c_lit σ) (c_fmt σ).
 Definition set_lit σ x := mkcst (c_cmd σ) (c_left σ) (c_value σ) (c_args σ) (c_node σ) (c_next σ) (c_err σ) (c_i σ) (c_v σ) (c_esc σ) (c_sb σ) x (c_fmt σ).
 
+Definition pSlice : N := 9.       (* slice bounds out of range *)
+Definition pMake : N := 10.       (* make with a negative length *)
+Definition pNilDeref : N := 11.   (* method call on a nil interface *)
+Definition pStuck : N := 12.      (* a state the translated body cannot be in (error returned without an error) *)
 Definition dummy_node : node := mkNode 0 [] [] None None.
 Definition cst0 (nd : node) (cmd : list N) : cst := mkcst cmd [] PNil [] nd 0 false 0 0 false [] [] 0.
 
@@ -156,18 +167,20 @@ Definition str_eqb : list N -> list N -> bool := list_eqb.
 (* ---------------------------------------------------------------- the state of the decoders *)
 Record dst := mkdst {
   d_length : Z; d_count : Z; d_id : Z; d_has : bool; d_key : list N; d_i : Z; d_j : Z;
+  d_made : Z;               (* len(values) of the slice made last *)
   d_lenvalues : Z;          (* len(reg.values) *)
   d_err : bool }.
-Definition dset_length σ x := mkdst x (d_count σ) (d_id σ) (d_has σ) (d_key σ) (d_i σ) (d_j σ) (d_lenvalues σ) (d_err σ).
-Definition dset_count σ x := mkdst (d_length σ) x (d_id σ) (d_has σ) (d_key σ) (d_i σ) (d_j σ) (d_lenvalues σ) (d_err σ).
-Definition dset_id σ x := mkdst (d_length σ) (d_count σ) x (d_has σ) (d_key σ) (d_i σ) (d_j σ) (d_lenvalues σ) (d_err σ).
-Definition dset_has σ x := mkdst (d_length σ) (d_count σ) (d_id σ) x (d_key σ) (d_i σ) (d_j σ) (d_lenvalues σ) (d_err σ).
-Definition dset_key σ x := mkdst (d_length σ) (d_count σ) (d_id σ) (d_has σ) x (d_i σ) (d_j σ) (d_lenvalues σ) (d_err σ).
-Definition dset_i σ x := mkdst (d_length σ) (d_count σ) (d_id σ) (d_has σ) (d_key σ) x (d_j σ) (d_lenvalues σ) (d_err σ).
-Definition dset_j σ x := mkdst (d_length σ) (d_count σ) (d_id σ) (d_has σ) (d_key σ) (d_i σ) x (d_lenvalues σ) (d_err σ).
-Definition dset_lenvalues σ x := mkdst (d_length σ) (d_count σ) (d_id σ) (d_has σ) (d_key σ) (d_i σ) (d_j σ) x (d_err σ).
-Definition dset_err σ x := mkdst (d_length σ) (d_count σ) (d_id σ) (d_has σ) (d_key σ) (d_i σ) (d_j σ) (d_lenvalues σ) x.
-Definition dst0 (lenvalues : Z) : dst := mkdst 0 0 0 false [] 0 0 lenvalues false.
+Definition dset_length σ x := mkdst x (d_count σ) (d_id σ) (d_has σ) (d_key σ) (d_i σ) (d_j σ) (d_made σ) (d_lenvalues σ) (d_err σ).
+Definition dset_count σ x := mkdst (d_length σ) x (d_id σ) (d_has σ) (d_key σ) (d_i σ) (d_j σ) (d_made σ) (d_lenvalues σ) (d_err σ).
+Definition dset_id σ x := mkdst (d_length σ) (d_count σ) x (d_has σ) (d_key σ) (d_i σ) (d_j σ) (d_made σ) (d_lenvalues σ) (d_err σ).
+Definition dset_has σ x := mkdst (d_length σ) (d_count σ) (d_id σ) x (d_key σ) (d_i σ) (d_j σ) (d_made σ) (d_lenvalues σ) (d_err σ).
+Definition dset_key σ x := mkdst (d_length σ) (d_count σ) (d_id σ) (d_has σ) x (d_i σ) (d_j σ) (d_made σ) (d_lenvalues σ) (d_err σ).
+Definition dset_i σ x := mkdst (d_length σ) (d_count σ) (d_id σ) (d_has σ) (d_key σ) x (d_j σ) (d_made σ) (d_lenvalues σ) (d_err σ).
+Definition dset_j σ x := mkdst (d_length σ) (d_count σ) (d_id σ) (d_has σ) (d_key σ) (d_i σ) x (d_made σ) (d_lenvalues σ) (d_err σ).
+Definition dset_made σ x := mkdst (d_length σ) (d_count σ) (d_id σ) (d_has σ) (d_key σ) (d_i σ) (d_j σ) x (d_lenvalues σ) (d_err σ).
+Definition dset_lenvalues σ x := mkdst (d_length σ) (d_count σ) (d_id σ) (d_has σ) (d_key σ) (d_i σ) (d_j σ) (d_made σ) x (d_err σ).
+Definition dset_err σ x := mkdst (d_length σ) (d_count σ) (d_id σ) (d_has σ) (d_key σ) (d_i σ) (d_j σ) (d_made σ) (d_lenvalues σ) x.
+Definition dst0 (lenvalues : Z) : dst := mkdst 0 0 0 false [] 0 0 0 lenvalues false.
 
 (* the read effects: `n, err := x.ReadFrom(r)` followed by `if err != nil { return ..., err }` is one
    effect whose failure IS the error return (the translator checks that the test follows) *)
@@ -179,3 +192,9 @@ Definition eff_bool {S} (set : S -> bool -> S) : S -> (S -> dec unit) -> dec uni
   fun σ k => ReadByte (fun b => k (set σ (negb (b =? 0)%N))).
 Definition eff_sub {S} (d : dec unit) : S -> (S -> dec unit) -> dec unit :=
   fun σ k => _ <- d ;; k σ.
+
+(* errors.New / ConfigErr texts -> the error classes of Model/C08.v *)
+Definition err_of (t : string) : N :=
+  if String.eqb t "negative tag length: " then eNegLen
+  else if String.eqb t "invalid id: " then eBadId
+  else 1%N.
